@@ -307,13 +307,16 @@ func runC17(c *Ctx) {
 							}
 							// extension mismatch on re-creation
 							if structSame {
-								other := sod.DefaultSchema
-								other.Extension = ".other"
-								d0 := treeDigest(fsys)
-								if err := db.Create(cur.Zero(), other); !errors.Is(err, sod.ErrExtensionMismatch) && consSame {
-									fail("extension-change-not-refused", fmt.Sprintf("Create with another extension returned %v instead of ErrExtensionMismatch", err))
-								} else if treeDigest(fsys) != d0 {
-									fail("refused-but-modified|Create-extension", "Create with another extension was refused but files were modified")
+								// another extension, and the same extension in another letter case
+								for _, ext := range []string{".other", strings.ToUpper(sod.DefaultExtension), ""} {
+									other := sod.DefaultSchema
+									other.Extension = ext
+									d0 := treeDigest(fsys)
+									if err := db.Create(cur.Zero(), other); !errors.Is(err, sod.ErrExtensionMismatch) && consSame {
+										fail("extension-change-not-refused", fmt.Sprintf("Create with extension %q on a collection stored with %q returned %v instead of ErrExtensionMismatch", ext, sod.DefaultExtension, err))
+									} else if treeDigest(fsys) != d0 {
+										fail("refused-but-modified|Create-extension", "Create with another extension was refused but files were modified")
+									}
 								}
 							}
 						})
